@@ -244,14 +244,20 @@ func (e *Exec) buildCex(label string, negated *Term) map[string]any {
 					facts = append(facts, fact{s, "addr.of." + k, App("addr.of."+k, BytesSort, s)})
 				}
 			}
+			if declaredFun["addr.valid.acc"] || declaredFun["addr.valid.val"] || declaredFun["addr.valid.cons"] {
+				facts = append(facts, fact{s, "noncanon", App("addr.noncanon", BoolSort, s)})
+			}
 			if declaredFun["validDenom"] {
 				facts = append(facts, fact{s, "validDenom", App("validDenom", BoolSort, s)})
 			}
-			if declaredFun["str.len"] {
+			if declaredFun["str.len"] || declaredFun["str.trim"] {
 				facts = append(facts, fact{s, "len", App("str.len", IntSort, s)})
 			}
 			if declaredFun["str.ord"] {
 				facts = append(facts, fact{s, "ord", App("str.ord", IntSort, s)})
+			}
+			if declaredFun["str.lower"] {
+				facts = append(facts, fact{s, "hasupper", App("str.hasupper", BoolSort, s)})
 			}
 			if declaredFun["str.trim"] {
 				facts = append(facts, fact{s, "trimlen", App("str.len", IntSort, App("str.trim", StrSort, s))})
